@@ -1,4 +1,5 @@
 import Mimium.Proofs.Pretty
+import Mimium.Proofs.NewlineRule
 /-!
 # C14 — The formatter never changes a program, loses no comment, and is idempotent
 
@@ -17,6 +18,12 @@ in `Model/Pretty.lean` and tied to the crate by exact comparison on random docum
 * `C14_render_wide_flat`: on a wide enough page a group without hard breaks is one line.
 * `C14_hardline_always_breaks`: a `hardline` produces a newline at every width (comments that end a line stay
   terminated).
+
+* `C14_newline_rule` / `C14_safe_breaks_keep_structure` (token-level port of the expression core of
+  `cst_parser.rs`, `Model/NewlineRule.lean`): the parse depends on line breaks only in front of `(`, `[` and `.`
+  (the postfix openers); inserting line breaks anywhere else — after an infix operator, before one (`|>`),
+  after a comma, inside brackets — never changes the tree.  `C14_linebreak_tests_vacuous`: the two
+  `has_trailing_linebreak()` tests in `parse_expr_with_precedence` do nothing (it equals its `_no_linebreak` twin).
 
 The three clauses of the statement themselves are decided by the correspondence stage with the real parser and
 the real formatter (see `tools/props/c14.py`); the defects it finds are listed in `known_findings.jsonl`.
@@ -110,3 +117,39 @@ example : render 3 exBin = "a +\n    b" := by decide +kernel
 example : stripLayout (renderP 3 exBin) = stripLayout (renderP 80 exBin) := C14_render_content_invariant _ _ _
 
 end Mimium.Pretty
+
+/-! ## P1 — the parser's newline rule (token level) -/
+namespace Mimium.NewlineRule
+
+/-- *newline rule*: two layouts of the same tokens whose line breaks agree in front of every `(`, `[`, `.`
+parse to the same tree — for all token sequences, all line-break placements, every fuel. -/
+theorem C14_newline_rule (ts : List TK) (nl nl' : Nat → Bool) (h : Agree ts nl nl') : parse ts nl = parse ts nl' := by
+  unfold parse
+  rw [stmts_congr ts nl nl' h]
+
+/-- *breaks inserted only at safe positions never change the token-level statement structure*: adding line
+breaks at any set `extra` of token gaps, none of them in front of a postfix opener, leaves the parse unchanged. -/
+theorem C14_safe_breaks_keep_structure (ts : List TK) (nl extra : Nat → Bool)
+    (safe : ∀ i, extra i = true → sensitive ts[i]? = false) :
+    parse ts (fun i => nl i || extra i) = parse ts nl := by
+  apply C14_newline_rule
+  intro i hs
+  cases he : extra i with
+  | false => simp [he]
+  | true => rw [safe i he] at hs; cases hs
+
+/-- the line-break tests inside `parse_expr_with_precedence` are vacuous: it computes the same function as
+`parse_expr_with_precedence_no_linebreak` (so a break *before* an infix operator such as `|>`, or after a
+complete operand, is not what ends a statement; only the postfix rule is line-break sensitive) -/
+theorem C14_linebreak_tests_vacuous (ts : List TK) (nl : Nat → Bool) (f mp i : Nat) :
+    exprPrec ts nl f true mp i = exprPrec ts nl f false mp i := (stop_irrelevant ts nl f).1 mp i
+
+/-! non-vacuity: a break in front of `(` *does* change the parse: `f(x)` is one statement, `f⏎(x)` is two -/
+def exCall : List TK := [.atom, .lparen, .atom, .rparen]
+example : (stmts exCall (fun _ => false) 5 0).length = 1 := by decide +kernel
+example : (stmts exCall (fun i => i == 1) 5 0).length = 2 := by decide +kernel
+/-- `a +⏎ b` and `a⏎|> b` keep one statement -/
+example : (stmts [.atom, .op 7, .atom] (fun i => i == 2) 4 0).length = 1 := by decide +kernel
+example : (stmts [.atom, .op 2, .atom] (fun i => i == 1) 4 0).length = 1 := by decide +kernel
+
+end Mimium.NewlineRule
